@@ -1,6 +1,6 @@
 ------------------------------ MODULE Conf_Kuznyechik ------------------------------
 EXTENDS Kuznyechik, Json, IOUtils
-VARIABLES l, inst
+VARIABLES tpos, inst
 Rec == ndJsonDeserialize(IOEnv.TRACE)
 OSched(t, k, x) == KuznyechikSched(t, k, x)
 OEnc(ks, b) == KuznyechikEnc(ks, b)
